@@ -1,6 +1,7 @@
 import Ucan.Driver.Selector
 import Ucan.Model.Policy
 import Ucan.Spec.Policy
+import Ucan.Spec.PolicyIpld
 /-!
 Statement text on the line protocol (no spaces):
 `ceq(<selhex>,<node>)` (also cgt, cge, clt, cle), `k(<selhex>,<patternhex>)` like, `!(<stmt>)`,
@@ -87,13 +88,21 @@ def parsePolicy (isL : Nat → Bool) (s : String) : Option (List Stmt) :=
     | _ => none
   | _ => none
 
-def runPolicy : List String → Option String
+partial def runPolicy : List String → Option String
   | ["pol.match", pol, letters, node] => do
     let isL ← parseLetters letters
     let n ← nodeFromStr node
     match parsePolicy isL pol with
     | none => pure "cerr"
     | some p => pure s!"{boolStr (Match p n)} {boolStr (PartialMatch p n)}"
+  | ["pol.ipldjson", node, letters] => runPolicy ["pol.ipld", node, letters]
+  | ["pol.ipld", node, letters] => do
+    -- FromIPLD then ToIPLD: "err", or the written-back node and the specification's normalised node
+    let isL ← parseLetters letters
+    let n ← nodeFromStr node
+    match fromIPLD isL n with
+    | .error _ => pure "err"
+    | .ok p => pure s!"ok {nodeToStr (toIPLD p)} | ok {nodeToStr (normPolicy isL n)}"
   | _ => none
 
 end Ucan.Driver
